@@ -295,6 +295,9 @@ impl FixtureDatabase {
                 for arg in &call.args {
                     self.visit_expr_for_names(arg, ctx);
                 }
+                for keyword in &call.keywords {
+                    self.visit_expr_for_names(&keyword.value, ctx);
+                }
             }
             Expr::Attribute(attr) => {
                 self.visit_expr_for_names(&attr.value, ctx);
@@ -336,6 +339,38 @@ impl FixtureDatabase {
             }
             Expr::Await(await_expr) => {
                 self.visit_expr_for_names(&await_expr.value, ctx);
+            }
+            // Forms that only combine sub-expressions (none of them binds a name)
+            Expr::BoolOp(boolop) => {
+                for value in &boolop.values {
+                    self.visit_expr_for_names(value, ctx);
+                }
+            }
+            Expr::IfExp(ifexp) => {
+                self.visit_expr_for_names(&ifexp.test, ctx);
+                self.visit_expr_for_names(&ifexp.body, ctx);
+                self.visit_expr_for_names(&ifexp.orelse, ctx);
+            }
+            Expr::Set(set) => {
+                for elt in &set.elts {
+                    self.visit_expr_for_names(elt, ctx);
+                }
+            }
+            Expr::Starred(starred) => {
+                self.visit_expr_for_names(&starred.value, ctx);
+            }
+            Expr::Slice(slice) => {
+                for part in [&slice.lower, &slice.upper, &slice.step].into_iter().flatten() {
+                    self.visit_expr_for_names(part, ctx);
+                }
+            }
+            Expr::Yield(yield_expr) => {
+                if let Some(ref value) = yield_expr.value {
+                    self.visit_expr_for_names(value, ctx);
+                }
+            }
+            Expr::YieldFrom(yield_from) => {
+                self.visit_expr_for_names(&yield_from.value, ctx);
             }
             _ => {}
         }
